@@ -282,6 +282,18 @@ def run(tier, seed):
                  max(1, n_small // (250 if quick else 1200)), max(1, n_small // (100 if quick else 400)), "send")
     o_big = rep(gen["send_big"], n_big, "rot", max(1, n_big // 600), max(1, n_big // 150), "send4")
     o_adv = rep(gen["adv"], n_adv, "rot", max(1, n_adv // (250 if quick else 1200)), max(1, n_adv // (60 if quick else 200)), "adv")
+    # write errors injected into the RECEIVER at its k-th store write: what the destination held before stays, and
+    # every table it holds afterwards is fully usable
+    fscen = os.path.join(vlib.sub("scn"), "send-fault.ndjson")
+    step = max(1, n_small // (400 if quick else 3000))
+    with open(gen["send_small"]) as f, open(fscen, "w") as g:
+        for i, line in enumerate(f):
+            if i % step == seed % step:
+                g.write(line)
+    o_fault = vlib.replay("transferfault", fscen, env={"VERIF_SEED": str(seed)}, timeout=120)
+    absorb(v, o_fault, fscen, "receiver faults")
+    if not o_fault.classes.get("fault"):
+        raise vlib.Inconclusive("no injected receiver write error fired (vacuous)")
     bad_send = set([i for i, _, _ in o_send.failures] + [i for i, _ in o_send.crashes] + list(o_send.timeouts))
     bad_adv = set([i for i, _, _ in o_adv.failures] + [i for i, _ in o_adv.crashes] + list(o_adv.timeouts))
     st_replay = binding_selftest_replay(gen["send_small"], gen["adv"], bad_send, bad_adv)
@@ -330,6 +342,7 @@ def run(tier, seed):
             samples.append({"trace_from": source, "events": [_compact(json.loads(x)) for x in j["traces"][0][1][:8]]})
     total_replayed = sum(out.total for _, out in outs)
     cov = {
+        "receiver_write_faults": {"scenarios": o_fault.total, "with_a_fault_fired": o_fault.classes.get("fault", 0)},
         "states": gen["states"], "transitions": gen["transitions"],
         "scenarios": {"send": n_small, "send_n4": n_big, "adversarial": n_adv},
         "traces_validated_against_impl": n_traces - n_rej,
@@ -421,6 +434,20 @@ def replay(path):
             raise vlib.Inconclusive(str(out.errors))
         bad = bool(out.crashes or out.timeouts)
         files = tc.split_side(side, "one")
+    elif scenario is not None and "/fault/" in (doc.get("signature") or ""):
+        scen = os.path.join(vlib.sub("scn"), "one.ndjson")
+        with open(scen, "w") as f:
+            f.write(json.dumps(scenario) + "\n")
+        bad = False
+        # the faults of a scenario are chosen from the seed and the scenario's index: try the whole rotation
+        for sd in range(0, 16):
+            out = vlib.replay("transferfault", scen, nshards=1, env={"VERIF_SEED": str(sd)}, timeout=120)
+            if out.errors:
+                raise vlib.Inconclusive(str(out.errors))
+            if out.failures or out.crashes or out.timeouts:
+                bad = True
+                break
+        files = {}
     elif scenario is not None:
         scen = os.path.join(vlib.sub("scn"), "one.ndjson")
         sc = dict(scenario)
